@@ -40,6 +40,8 @@ def gen(rng, tier, i):
     return plan
 
 
+gen = _gen.with_lines(gen, ['handle_request', '_get_socket', 'close', '_handle_connect', 'disconnect', 'handle_get_request'])
+
 def run(plan, sched_values=None, sched_seed=0):
     h = run_server_scenario(plan, sched_values, sched_seed)
     f = oracles.Facts(h)
